@@ -7,7 +7,8 @@ DECIDED = ("R1.1/R1.2: in every normal variant of every public install root, the
            "guards, the address the trampoline bytes were written to, and the trampoline bytes decode to a branch to the replacement "
            "pointer (or to the boolean stub); R1.3: the protection change preceding an entry write covers [dst, dst+len) under kernel "
            "page rounding; R1.4: the trampoline code fits its mapping; R1.5: function/replacement roles at the public API level; "
-           "R1.6: no entry write on any diverging path.")
+           "R1.6: no entry write on any diverging path; R1.7: on AArch64 and 32-bit ARM targets the same destination decision with their "
+           "decode tables (entry -> trampoline -> replacement; ARM: literal = replacement, Thumb bit included), detailed by C15 / C16.")
 NOT_DECIDED = ("atomicity of the entry write against threads already executing the function; that the CPU executes the bytes as the "
                "decode table says")
 
@@ -80,6 +81,13 @@ def run(ck, models, tier):
     n_roots = 0
     for tm in models:
         if tm.arch != "x86_64":
+            # R1.7 the same destination decision on the other architectures (decided in detail by C15 / C16)
+            from . import patches
+            k = patches.reach_obligations(ck, "R1.7", tm, lambda r: True, "call-reaches-fake")
+            ck.floor("R1.7", "patches-with-decided-destination", k, 12 if tm.arch != "arm" else 18, tm.target)
+            for m_ in tm.machines.values():
+                for f_ in m_.entered:
+                    ck.analysed_fn(tm.target, f_)
             continue
         rr = roots_and_roles(tm)
         n_roots += len(rr)
